@@ -8,7 +8,8 @@ import TbotVerif.Model.ChanRun
               <no_password_timeout|->;<boot_timeout|->
       init  = <dt>@<hex>,… | .        stage = <a|c>:<dt>@<hex>,… (`.` = no output)
     obs   = <ok|exception tag> <uboot bootlog chars|~> <linux bootlog chars|~> <event>*
-      event = on/<t> off/<t> u/<t> b/<t> l/<t> r/<n>/<timeout|->/<t0>/<t1>/<hex|!> w/<t>/<hex> -/
+      event = on/<t> off/<t> u/<t> b/<t> l/<t> r/<n>/<timeout|->/<t0>/<t1>/<hex|!> w/<t>/<hex>
+    `board <case>` → obs of the model; `spec C18 <case> || <obs>` → 1/0; `coop <case>` → 1/0 (`Spec.coopB`) -/
 namespace Driver.Board
 open _root_.Board
 
@@ -100,6 +101,10 @@ def handle (toks : List String) : Option String :=
   | "board" :: rest =>
     some (match case rest with
     | some c => obs (run c)
+    | none => "bad-op")
+  | "coop" :: rest =>
+    some (match case rest with
+    | some c => if Spec.coopB c then "1" else "0"
     | none => "bad-op")
   | "spec" :: "C18" :: rest =>
     let (ct, ot) := splitAt2 rest "||"
